@@ -67,4 +67,15 @@ PROPS = {
         'level_text': 'For each of the five combinators a Lean theorem states that, for every finite program of seek_to_first/seek_to_last/seek/next/prev (all reversals at all positions), the model of the combinator shows after every call what one reference cursor over the specified list shows (sorted union / concatenation / window = entries in the interval / per key the newest version <= t unless a tombstone / the opened table), plus substitution theorems that lift this to any children that behave like tables. The models mirror the Rust code operation by operation (incl. the implicit binary heap and the direction switch) and are tied to it by running the real combinators over real ReferenceCursor/SstCursor/LazyCursor children on seeded table families and programs and comparing key_value() after every call with the model (exact) and with a vector cursor written from the specification (oracle).',
         'level_note': 'Trusted: Lean kernel; axioms propext, Classical.choice, Quot.sound; hand-written models + agreement on generated cases only. merging_refines needs pairwise distinct (key,ts) across children; duplicates are explored by the check but not covered by a theorem. The theorems for concat next/seek and bounds prev are about the repaired code (D-2, D-18, D-19); the unrepaired operations are kept as models with machine-checked counterexamples.',
     },
+    'C16': {
+        'trusted': ['UTF-8 validity enters the model as Blue.Utf8.valid (Unicode Table 3-7); its agreement with String::from_utf8 is checked by correspondence on the generated byte strings only'],
+        'assumptions': [
+            'tuples compared have the same field numbers, element types and directions (the property\'s quantifier); no order is claimed across different field numbers (the tag is a little-endian varint)',
+            'strings of the field-numbered format are Rust Strings, so a raw 0xff byte cannot occur in them (0xff-bearing bytes are exercised through U+0080..U+10FFFF there and through bytes elements of the compact format)',
+            'derive(TypedTupleKey) with a #[reverse] () field round-trips only with fixes/tuple_key_derive-reverse-unit.diff applied (class derive-reverse-unit otherwise)',
+        ],
+        'partial': ['string_desc_partial: descending strings of tuple_key sort in reverse only for pairs outside ContTie (forward encodings first differ in a data bit); the rest is D-20 (string_desc_counterexample, string_desc_tie_ascending), a format defect recorded in KNOWN_FINDINGS'],
+        'level_text': 'Order embedding + self-delimitation (Strong) is a Lean theorem for every element type and direction of the field-numbered format (u32/u64/i32/i64 both directions, strings ascending) and of the compact format (u64, i64, byte strings), lifted to tagged fields and to whole tuples (tuple_order, compact_tuple_order) with both halves of prefix contiguity; the typed parsers of both formats return the tuple that was written (tuple_roundtrip, compact_roundtrip). Descending strings are false as stated (D-20): the failing pairs are characterised exactly by a decidable predicate ContTie (string_desc_tie_ascending / string_desc_partial / string_pairs_dichotomy). The models are tied to both crates by byte-exact comparison of encodings, of typed-parser results (values and error kinds) on intact and hostile buffers, and of the schema-free walk; discriminants, signed offsets, field-number limits and compact tags are regenerated from the source each run.',
+        'level_note': 'Trusted: Lean kernel; axioms propext, Classical.choice, Quot.sound; Blue.Utf8.valid as the model of String::from_utf8; correspondence is agreement on generated cases only (decoders never panic: observed, not proved — the model decoders are total functions and a panic is an oracle failure). string_desc_partial is weaker than the property by exactly the D-20 class.',
+    },
 }
